@@ -37,16 +37,16 @@ func init() {
 		ID:    "C05",
 		Level: "fault_enumeration",
 		Rule: "random core-language programs with fault points (inj id) in every syntactic position (loop init/test/advance/body, let bindings and bodies, arguments, callee bodies at call depth 0-5, map/apply, hash literals, closures called later, inside an error-absorbing host callback (try (fn [] …)) that re-enters the VM through the public Apply and handles the error). " +
-			"For each program the fault-free run counts the n dynamic executions of inj; then for EVERY k<=n and each failure kind (host function returns an error; Go panic inside the host function) the program is run in a fresh interpreter with the k-th inj failing; additionally every static fault point is replaced by a form that fails to compile, a parse error is appended, and (thorough) every VM instruction index k of short programs is failed through the step hook. Position sweep: 71 templates (every sub-form position of literals, templates, special forms, infix constructs, declarations, higher-order builtins) x 13 failing forms (6 that fail to compile, a host error, a host panic, unbound function/variable, index, division, type error): the evaluation must fail, the VM be at rest, earlier definitions survive, nothing after the failure run, and the generic battery answer as usual. " +
+			"For each program the fault-free run counts the n dynamic executions of inj; then for EVERY k<=n and each failure kind (host function returns an error; Go panic inside the host function) the program is run in a fresh interpreter with the k-th inj failing; additionally every static fault point is replaced by a form that fails to compile, a parse error is appended, and (thorough) every VM instruction index k of short programs is failed through the step hook. Host-API sequences of 24 steps (EvalString, LoadString+Run, several loads before one Run, EvalExpressions, top-level Apply, Duplicate) mixed with failing steps (compile failure of a load with and without an earlier pending load, unbound function, runtime failure below let and loop, parse error, wrong-arity Apply, a macro expanding into itself, a macro with a malformed expansion, a stashed lazy argument whose force fails twice and then succeeds): errors returned, values of a global model, rest state and read-back of every global. Position sweep: 71 templates (every sub-form position of literals, templates, special forms, infix constructs, declarations, higher-order builtins) x 16 failing forms (6 that fail to compile, a host error, a host panic, unbound function/variable, index, division, type error, a macro that expands into itself, a macro whose expansion fails to compile, a failure 30 calls deep): the evaluation must fail, the VM be at rest, earlier definitions survive, nothing after the failure run, and a battery (definitions, loops, recursion, a new macro, range/++, a lazy formal, a misplaced break that must be rejected, an infix loop) answer as usual. " +
 			"Oracles: error returned and names the injected id (never a value), trace up to the failure equals the reference's, VM at rest, and a follow-up battery (every global read back, every global function called, new definitions, loop, let, recursion, empty input) answers exactly as computed from the reference evaluator's state after the same k-th failure. " +
 			"non-trivial = distinct (program, k, kind) whose failure happened at call depth>=1 or inside a loop/let/try, counted per program text",
 		Assumptions: []string{
 			"reference evaluator keeps all side effects made before the failure and defines nothing after it (calibrated: 0 disagreements on the unchanged tree)",
 			"for compile-error and instruction-level faults no model of the exact failure time is assumed: only error-returned, rest state, effect trace being a prefix of the fault-free trace, and the model-free part of the battery are judged",
 		},
-		NCases:  func(c *core.Ctx) int { return thorN(c, 1500, 8000) + len(c05Pos)*len(c05Faults) },
+		NCases:  func(c *core.Ctx) int { return thorN(c, 1500, 8000) + len(c05Pos)*len(c05Faults) + thorN(c, 80, 800) },
 		Chunk:   50,
-		MustSee: []string{"injected_err", "injected_panic", "absorbed_by_try", "battery_questions", "compile_faults", "parse_faults", "position_sweep"},
+		MustSee: []string{"injected_err", "injected_panic", "absorbed_by_try", "battery_questions", "compile_faults", "parse_faults", "position_sweep", "api_failing_steps"},
 		Run:     c05Run,
 	})
 }
@@ -157,7 +157,7 @@ var c05Pos = []string{
 	"(+ 1 X)", "(+ 1 (+ 2 X))", "(str X)", "(aget [1 2] X)", "(hset (hash) a: X)", "(first [X])", "(not X)", "(len [X X])", "(idw X)", "(eval (quote X))", "(eval X)",
 }
 
-var c05Faults = []string{"(let)", "(cond)", "(for)", "(and)", "(quote)", "(fn)", "(boom 7)", "(pboom 7)", "(undefinedfn9 1)", "(aget [1] 9)", "(/ 1 0)", "undefinedvar9", "(+ 1 \"s\")"}
+var c05Faults = []string{"(let)", "(cond)", "(for)", "(and)", "(quote)", "(fn)", "(boom 7)", "(pboom 7)", "(undefinedfn9 1)", "(aget [1] 9)", "(/ 1 0)", "undefinedvar9", "(+ 1 \"s\")", "(forever9 1)", "(badm9 1)", "(deepfail9 30)"}
 
 func c05Sweep(c *core.Ctx, k int) *core.Result {
 	pos, fault := c05Pos[k/len(c05Faults)], c05Faults[k%len(c05Faults)]
@@ -178,7 +178,8 @@ func c05Sweep(c *core.Ctx, k int) *core.Result {
 		res.Verdict, res.Key, res.Detail = core.Inconclusive, "template-fails-with-a-healthy-operand", OutStr(oc)
 		return res
 	}
-	s.Eval("(def before9 1)\n", 0)
+	c05SweepSetup := "(def before9 1) (defmac forever9 [x] ^(forever9 ~x)) (defmac badm9 [x] ^(let [q] ~x)) (defn deepfail9 [n] (cond (<= n 0) (aget [1] 9) (+ 1 (deepfail9 (- n 1)))))\n"
+	s.Eval(c05SweepSetup, 0)
 	o := s.Eval(text, 200000)
 	res.Evals++
 	res.Ev("position_sweep", 1)
@@ -203,11 +204,22 @@ func c05Sweep(c *core.Ctx, k int) *core.Result {
 	if a := s.Eval("after9\n", 0); a.Err == nil {
 		res.Violate("sweep:ran-past-the-failure", "after9 is defined ("+OutStr(a)+"): forms after the failing one were evaluated", text)
 	}
-	for _, q := range c05Generic {
+	sweepBattery := append(append([]struct{ text, want string }{}, c05Generic...), []struct{ text, want string }{
+		{"(defmac zm9 [x] ^(+ 1 ~x)) (zm9 4)\n", "5"},
+		{"(def zc9 0) (range k v [1 2] (set zc9 (+ zc9 v))) (++ zc9) zc9\n", "4"},
+		{"(defn zl9 [#x] (force #x)) (zl9 (+ 20 22))\n", "42"},
+		{"(defn zbrk9 [] (break))\n", "ERR"},
+		{"{zs9 := 0; for i := 0; i < 3; i++ { zs9 += i }; zs9}\n", "3"},
+	}...)
+	for _, q := range sweepBattery {
 		b := s.Eval(q.text, 100000)
 		res.Evals++
 		res.Ev("battery_questions", 1)
-		if OutStr(b) != q.want {
+		got := OutStr(b)
+		if b.Err != nil && q.want == "ERR" {
+			got = "ERR"
+		}
+		if got != q.want {
 			res.Violate("sweep:battery", fmt.Sprintf("after the failed evaluation %q gives %s, want %s", q.text, OutStr(b), q.want), text)
 			break
 		}
@@ -220,6 +232,16 @@ func c05Sweep(c *core.Ctx, k int) *core.Result {
 }
 
 func c05Run(c *core.Ctx, i int) *core.Result {
+	if base := thorN(c, 1500, 8000) + len(c05Pos)*len(c05Faults); i >= base {
+		// host-API sequences (apiseq.go) with failing steps mixed in
+		res := &core.Result{Nontrivial: true}
+		apiSeqRun(res, core.NewRng(c.Seed, "C05api", i, 0), 24, true, "api:")
+		if res.Input == "" {
+			res.Input = fmt.Sprintf("host-API sequence %d", i-base)
+			res.Hash = core.HashOf(res.Input)
+		}
+		return res
+	}
 	if base := thorN(c, 1500, 8000); i >= base {
 		return c05Sweep(c, i-base)
 	}
